@@ -4,6 +4,65 @@ import re
 import facts
 from astlib import calls, find_fn, fns_in_file, last, method_calls, pat_paths, render, site, strip, walk
 from pathcond import conditions_to, fact_str, facts_str, let_env
+import alpha
+import copy
+
+VS_ROLES = [("stmt", "param", 0), ("loop_depth", "param", 1), ("env", "param", 2), ("reports", "param", 3), ("basic_blocks", "param", 4),
+            ("current_index", "let", "basic_blocks.last().index()")]
+ARM_ROLES = {
+    "While": [("meta", "field", "While", "meta"), ("cond", "field", "While", "cond"), ("while_body", "field", "While", "stmt"),
+              ("header_index", "let", "current_index + 1", "optional"),
+              ("pred_set", "let", "visit_statement(while_body, __d, __e, __r, __b)?")],
+    "IfThenElse": [("meta", "field", "IfThenElse", "meta"), ("cond", "field", "IfThenElse", "cond"), ("if_case", "field", "IfThenElse", "if_case"), ("else_case", "field", "IfThenElse", "else_case"),
+                   ("if_pred_set", "let", "visit_statement(if_case, __d, __e, __r, __b)?"),
+                   ("else_case", "somelet", "else_case", "optional"),
+                   ("else_pred_set", "let", "visit_statement(else_case, __d, __e, __r, __b)?")],
+    "Block": [("stmts", "field", "Block", "stmts"), ("pred_set", "let", "IndexSet::new()"), ("stmt", "forvar", "stmts")],
+}
+CB_ROLES = [("basic_blocks", "param", 0), ("meta", "param", 1), ("pred_set", "param", 2), ("loop_depth", "param", 3),
+            ("j", "let", "basic_blocks.len()"), ("i", "forvar", "pred_set"),
+            ("true_index", "field", "IfThenElse", "true_index"), ("false_index", "field", "IfThenElse", "false_index")]
+
+
+def canon_visit_statement(ctx, R):
+    fn = find_fn(LF, "visit_statement")
+    if fn is None:
+        ctx.missing(R, "visit_statement")
+        return None
+    f, miss = alpha.canon(fn, VS_ROLES)
+    if miss:
+        ctx.missing(R, "visit_statement/roles", "cannot identify %s" % miss)
+        return None
+    # per-arm roles
+    ms = [m for m in walk(f["body"]) if m["k"] == "Match" and render(strip(m["scrut"])) == "stmt"]
+    if ms:
+        for a in ms[0]["arms"]:
+            for v in [last(p) for p in pat_paths(a["pat"])]:
+                if v in ARM_ROLES:
+                    pseudo = {"body": a, "sig": {"inputs": []}}
+                    _f2, miss2 = alpha.canon(pseudo, ARM_ROLES[v])
+                    # canon works on a copy: redo in place
+                    for role in ARM_ROLES[v]:
+                        actual = alpha.discover(pseudo, role)
+                        if actual is None:
+                            if role[-1] != "optional":
+                                ctx.missing(R, "visit_statement/%s/roles" % v, "cannot identify `%s`" % role[0])
+                            continue
+                        if actual != role[0]:
+                            alpha.rename(a, {actual: role[0]})
+    return f
+
+
+def canon_complete(ctx, R):
+    fn = find_fn(LF, "complete_basic_block")
+    if fn is None:
+        ctx.missing(R, "complete_basic_block")
+        return None
+    f, miss = alpha.canon(fn, CB_ROLES)
+    if miss:
+        ctx.missing(R, "complete_basic_block/roles", "cannot identify %s" % miss)
+        return None
+    return f
 
 TITLE = "CFG well-formedness"
 LEVEL_TEXT = (
@@ -43,9 +102,8 @@ def rule_edges(ctx):
     ctx.rule(R, "every successor edge is inserted together with the mirrored predecessor edge, for every member of the predecessor set, unconditionally; edges are inserted nowhere else")
     n_pairs = 0
     for fname in ("visit_statement", "complete_basic_block"):
-        fn = find_fn(LF, fname)
+        fn = canon_visit_statement(ctx, R) if fname == "visit_statement" else canon_complete(ctx, R)
         if fn is None:
-            ctx.missing(R, fname)
             continue
         succ = sorted(method_calls(fn["body"], "add_successor"), key=line_of)
         pred = sorted(method_calls(fn["body"], "add_predecessor"), key=line_of)
@@ -102,9 +160,9 @@ def rule_edges(ctx):
 def rule_lifting(ctx):
     R = "C12.2"
     ctx.rule(R, "branch statements end their block and name the blocks created next: in the While arm the header is created unconditionally, the branch is appended to it with true target = the body block created right after, the body's ends are linked back to the header and the header alone falls through; in the If arm the true target is the block created next, each branch contributes its own ends (or its last block when it has none), a missing else contributes the branching block")
-    fn = find_fn(LF, "visit_statement")
+    fn = canon_visit_statement(ctx, R)
     if fn is None:
-        return ctx.missing(R, "visit_statement")
+        return
     le = let_env(fn["body"])
     ci = le.get("current_index")
     ctx.check(R, "visit_statement/current-index-is-last-block", ci is not None and render(strip(ci)).replace(" ", "") == "basic_blocks.last().index()", render(ci) if ci else "?", site(LF, fn))
@@ -140,7 +198,7 @@ def rule_lifting(ctx):
             ctx.check(R, "While/header-follows-current-block", p0 == "HashSet::from([current_index])", "header predecessors: %s" % p0, site(LF, comp[0]))
             ctx.check(R, "While/body-follows-header", p1 in ("HashSet::from([header_index])", "HashSet::from([(current_index+1)])"), "body predecessors: %s" % p1, site(LF, comp[1]))
             hdr = le2.get("header_index")
-            ctx.check(R, "While/header-index", hdr is not None and render(strip(hdr)).replace(" ", "") == "(current_index+1)", render(hdr) if hdr else "?", site(LF, arm))
+            ctx.check(R, "While/header-index", (hdr is not None and render(strip(hdr)).replace(" ", "") == "(current_index+1)") or (hdr is None and "header_index" not in render(body)), render(hdr) if hdr else "?", site(LF, arm))
             st = [n for n in walk(app[0]) if n["k"] == "Struct" and last(n["path"]) == "IfThenElse"]
             if len(st) == 1:
                 f = {x["name"]: render(strip(x["e"])).replace(" ", "") for x in st[0]["fields"]}
@@ -288,9 +346,9 @@ def rule_no_removal(ctx, R, name, body):
 def rule_complete(ctx):
     R = "C12.4"
     ctx.rule(R, "complete_basic_block creates exactly one block whose index is its position, links every predecessor, and patches a predecessor's false target exactly when the new block is not its true target and no false target exists yet")
-    fn = find_fn(LF, "complete_basic_block")
+    fn = canon_complete(ctx, R)
     if fn is None:
-        return ctx.missing(R, "complete_basic_block")
+        return
     le = let_env(fn["body"])
     j = le.get("j")
     ctx.check(R, "complete_basic_block/new-index-is-length", j is not None and render(strip(j)).replace(" ", "") == "basic_blocks.len()", render(j) if j else "?", site(LF, fn))
